@@ -243,6 +243,7 @@ def main(argv=None):
             "model_ops_compared": ctx.model_ops,
             "distribution": ctx.dist,
             "known_findings_hit": {k: len(v) for k, v in known_hits.items()},
+            "admissible_divergences": dict(__import__("harness.world", fromlist=["DIVERGENCES"]).DIVERGENCES),
             "explanation": meta.get("explanation", ""),
             "notes": ctx.notes,
             "lean_wall_s": lean.get("wall_s"),
